@@ -320,6 +320,11 @@ class Gen:
             it = self.expr(LIST(et), 1)
             if self.mut("for-non-list"):
                 it = self.expr(r.choice([INT, STR, OPT(INT)]), 1)
+            if it[0] in "[im" and self.chance(0.6):
+                # a literal / if / match iterable: parenthesised its type is inferred (the fragment of
+                # check_sound_fragment), bare it is checked against List<Any> (known findings)
+                it = "(" + it + ")"
+                self.f("for-paren")
             self.scopes.append([(x, et)])
             self.readonly.add(x)
             self.loop_depth += 1
